@@ -4,6 +4,8 @@ import gen, vlib
 from gen import enc_value, enc_struct
 
 SCRIPTS = [
+    # what a run reads from the object must come from THAT object, whatever objects earlier runs saw
+    "return [Name, Count, Ratio, Active, Tags, Nums, Mode];", "seen = seen + 1; return string(Name) + \":\" + string(Count) + \":\" + string(Mode);",
     # top-level loops that end by panic / error / early return while their scope is open; the host then touches the loop variable's name
     "foreach item in [10, 20, 30] { if (Mode == 2 && item == 20) { panic(\"stop\"); } if (Mode == 1 && item == 20) { return 1 % 0; } if (Mode == 3) { return item; } last = item; } return [item, last];",
     "foreach k, v in Meta { foreach item in Tags { if (Mode == 2) { panic(); } if (Mode == 1) { return nosuch(); } seen = item; } } return [item, k, v, seen];",
@@ -34,8 +36,16 @@ class C07(Prop):
 
     def history(self, rng, script, nruns, randomobj=False):
         objs, ops = [], ["addfn:%s:void" % vlib.hx("t")]
+        varied = rng.random() < 0.5
         for i in range(rng.randint(1, 4)):
             fields = gen.rand_object(rng) + [("Mode", rng.choice([0, 0, 1, 2, 3, 4, 5]))]
+            if varied:
+                # objects of different (anonymous) struct types in one history: other field sets, other orders, other field types
+                fields = rng.sample(fields, rng.randint(2, len(fields)))
+                if rng.random() < 0.5:
+                    fields = [(k, (str(v) if k == "Count" and rng.random() < 0.5 else v)) for k, v in fields]
+                if not any(k == "Mode" for k, _ in fields):
+                    fields.append(("Mode", rng.choice([0, 1, 3])))
             objs.append(enc_struct(fields))
         if rng.random() < 0.5:
             ops.append("setvar:%s:%s" % (vlib.hx("n"), enc_value(rng.choice([0, 5]))))
